@@ -27,3 +27,26 @@ package j5client
 //@ func buildListRequest
 //@   opt assumed frame
 //@   modifies fresh:result0
+
+// ---- entity parts are regrouped by their annotation (C17) ----------------------------------------------------
+// An object annotated as part P of entity E is stored in the P slot of the package's entity named E
+// (created on first sight); an unknown part is an error; other entities' slots are not touched.
+//@ func includeEntity
+//@   requires pkg != nil && obj != nil && obj.Entity != nil
+//@   requires forall i int {pkg.StateEntities[i]} :: 0 <= i && i < len(pkg.StateEntities) ==> pkg.StateEntities[i] != nil
+//@   ensures entries: forall i int {pkg.StateEntities[i]} :: 0 <= i && i < len(pkg.StateEntities) ==> pkg.StateEntities[i] != nil
+//@   assert at return#1 named: entity != nil && entity.Name == obj.Entity.Entity
+//@   assert at return#1 member: exists i int :: 0 <= i && i < len(pkg.StateEntities) && pkg.StateEntities[i] == entity
+//@   assert at return#1 slot: (obj.Entity.Part == schema_j5pb.EntityPart_KEYS ==> entity.KeysSchema == obj) && (obj.Entity.Part == schema_j5pb.EntityPart_STATE ==> entity.StateSchema == obj)
+//@   |   && (obj.Entity.Part == schema_j5pb.EntityPart_EVENT ==> entity.EventSchema == obj)
+//@   assert at return#0 unknown: result0 != nil && obj.Entity.Part != schema_j5pb.EntityPart_KEYS && obj.Entity.Part != schema_j5pb.EntityPart_STATE && obj.Entity.Part != schema_j5pb.EntityPart_EVENT && obj.Entity.Part != schema_j5pb.EntityPart_DATA
+//@   loop 0 invariant forall i int {pkg.StateEntities[i]} :: 0 <= i && i < len(pkg.StateEntities) ==> pkg.StateEntities[i] != nil
+// After all schemas of a package were seen, every entity has its Keys, State and Event objects, or the
+// package is rejected.
+//@ func (*sourceBuilder).walkSourceSchemas
+//@   requires pkg != nil && schemaPackage != nil
+//@   requires forall i int {pkg.StateEntities[i]} :: 0 <= i && i < len(pkg.StateEntities) ==> pkg.StateEntities[i] != nil
+//@   free requires forall k string {schemaPackage.Schemas[k]} :: has(schemaPackage.Schemas, k) ==> schemaPackage.Schemas[k] != nil && (typeis(schemaPackage.Schemas[k].To, *j5schema.ObjectSchema) ==> as(*j5schema.ObjectSchema, schemaPackage.Schemas[k].To) != nil)
+//@   ensures complete: result == nil ==> forall i int {pkg.StateEntities[i]} :: 0 <= i && i < len(pkg.StateEntities) ==> pkg.StateEntities[i].KeysSchema != nil && pkg.StateEntities[i].EventSchema != nil && pkg.StateEntities[i].StateSchema != nil
+//@   loop 0 invariant forall i int {pkg.StateEntities[i]} :: 0 <= i && i < len(pkg.StateEntities) ==> pkg.StateEntities[i] != nil
+//@   loop 1 invariant forall i int {pkg.StateEntities[i]} :: 0 <= i && i < $iter ==> pkg.StateEntities[i].KeysSchema != nil && pkg.StateEntities[i].EventSchema != nil && pkg.StateEntities[i].StateSchema != nil
